@@ -93,11 +93,69 @@ fn do_append(app: &FileAppender, msg: &str) -> bool {
     .is_ok()
 }
 
+/// the appender of a sequential history: built with the builder, or - every other case with the
+/// real pattern encoder - declared in a configuration document (`kind: file`, through
+/// FileAppenderDeserializer) and driven through the Logger built from that document
+enum SeqApp {
+    Direct(FileAppender),
+    Declared(log4rs::Logger, Arc<std::sync::atomic::AtomicBool>),
+}
+
+impl SeqApp {
+    fn declared(path: &Path, a: bool) -> SeqApp {
+        let y = format!(
+            "appenders:\n  f:\n    kind: file\n    path: {}\n    append: {}\n    encoder:\n      kind: pattern\n      pattern: \"{{m}}{{n}}\"\nroot:\n  level: trace\n  appenders: [f]\n",
+            serde_json::to_string(&path.to_string_lossy()).unwrap(),
+            a
+        );
+        let raw: log4rs::config::RawConfig = serde_yaml::from_str(&y).expect("document");
+        let (appenders, errors) = raw.appenders_lossy(&log4rs::config::Deserializers::default());
+        assert!(errors.is_empty(), "declared file appender was not built");
+        let config = log4rs::config::Config::builder()
+            .appenders(appenders)
+            .build(raw.root())
+            .expect("config");
+        let failed = Arc::new(std::sync::atomic::AtomicBool::new(false));
+        let f2 = failed.clone();
+        SeqApp::Declared(
+            log4rs::Logger::new_with_err_handler(
+                config,
+                Box::new(move |_e: &anyhow::Error| f2.store(true, std::sync::atomic::Ordering::SeqCst)),
+            ),
+            failed,
+        )
+    }
+
+    fn append(&self, msg: &str) -> bool {
+        match self {
+            SeqApp::Direct(app) => do_append(app, msg),
+            SeqApp::Declared(logger, failed) => {
+                use log::Log;
+                failed.store(false, std::sync::atomic::Ordering::SeqCst);
+                logger.log(&Record::builder().level(log::Level::Info).target("c04").args(format_args!("{}", msg)).build());
+                !failed.load(std::sync::atomic::Ordering::SeqCst)
+            }
+        }
+    }
+}
+
 fn run_seq(c: &[Val]) -> Val {
+    static TURN: std::sync::atomic::AtomicUsize = std::sync::atomic::AtomicUsize::new(0);
+    let turn = TURN.fetch_add(1, std::sync::atomic::Ordering::SeqCst);
     let pattern = c[1].n() != 0;
+    let declared = pattern && turn % 2 == 1;
     let a = c[2].b();
     let dir = tempfile::tempdir().unwrap();
     let path = prepare_path(dir.path(), &c[3]);
+    // The file is read back through a SECOND NAME of it (a hard link made before the appender exists, or
+    // right after the build when the appender creates the file) in two cases out of three: "readable by any
+    // other reader" includes a reader that knows the file by another name or had it open already; truncate
+    // mode empties the file, it does not replace it.
+    let alias = dir.path().join("alias-of-the-log");
+    let use_alias = turn % 3 != 0;
+    if use_alias && path.exists() {
+        std::fs::hard_link(&path, &alias).expect("hard link");
+    }
     let ops = c[4].l();
     let mut recs: Vec<Vec<Vec<u8>>> = Vec::new();
     for op in ops {
@@ -107,17 +165,24 @@ fn run_seq(c: &[Val]) -> Val {
         }
     }
     let table = Arc::new(vec![recs.clone()]);
-    let mk = |a: bool| -> FileAppender {
+    let mk = |a: bool| -> SeqApp {
+        if declared {
+            return SeqApp::declared(&path, a);
+        }
         let enc: Box<dyn Encode> = if pattern {
             Box::new(PatternEncoder::new("{m}{n}"))
         } else {
             Box::new(ScriptEncoder { table: table.clone(), yield_mode: 0 })
         };
-        build(&path, a, enc)
+        SeqApp::Direct(build(&path, a, enc))
     };
     let mut out = Vec::new();
     let mut app = Some(mk(a));
-    out.push(snapshot(true, &path));
+    if use_alias && !alias.exists() {
+        std::fs::hard_link(&path, &alias).expect("hard link");
+    }
+    let seen = if use_alias { alias.clone() } else { path.clone() };
+    out.push(snapshot(true, &seen));
     let mut seq = 0usize;
     for op in ops {
         let op = op.l();
@@ -127,18 +192,18 @@ fn run_seq(c: &[Val]) -> Val {
             } else {
                 format!("0:{}", seq)
             };
-            let ok = do_append(app.as_ref().unwrap(), &msg);
+            let ok = app.as_ref().unwrap().append(&msg);
             seq += 1;
-            out.push(snapshot(ok, &path));
+            out.push(snapshot(ok, &seen));
         } else if op[0].n() == 2 {
             // the scripted encoder writes the chunks, then returns Err (scripted encoder only)
-            let ok = do_append(app.as_ref().unwrap(), &format!("0:{}:fail", seq));
+            let ok = app.as_ref().unwrap().append(&format!("0:{}:fail", seq));
             seq += 1;
-            out.push(snapshot(ok, &path));
+            out.push(snapshot(ok, &seen));
         } else {
             drop(app.take());
             app = Some(mk(op[1].b()));
-            out.push(snapshot(true, &path));
+            out.push(snapshot(true, &seen));
         }
     }
     drop(app);
